@@ -697,11 +697,22 @@ def adsr_rows(script, outs):
         yield i, op.split(), int(o[0]), int(o[1]), unhx(o[2])
 
 
+def adsr_inc_of(fs, t):
+    """the increment the crate computes for a phase time t at sample rate fs (f32 arithmetic, truncating cast)"""
+    x = f32div(f32mul(16777216.0, f32div(1.0, t)), fs)
+    if isnan(x):
+        return 0
+    return int(max(0.0, min(4294967295.0, x)))
+
+
 def mon_C01(script, outs):
     fails = []
     tr = AdsrTrack()
     prev = None          # (state, acc, value)
     event_since_tick = True
+    # an independent phase clock (phase and position from the operations alone), so that the curve is placed
+    # where the documented timing puts it, not where the implementation's own counter happens to be
+    exp_state, exp_acc = 0, 0
     for i, t, st, acc, val in adsr_rows(script, outs):
         if isnan(val) or not (0.0 <= val <= 1.0):
             fails.append((i, "value %r outside [0, 1]" % val))
@@ -718,9 +729,20 @@ def mon_C01(script, outs):
         elif op == "gon":
             if prev[0] != 1:
                 tr.von = prev[2]
+            if exp_state != 1:
+                exp_state, exp_acc = 1, 0
         elif op == "goff":
             if prev[0] in (1, 2, 3):
                 tr.voff = prev[2]
+            if exp_state in (1, 2, 3):
+                exp_state, exp_acc = 4, 0
+        if op == "tick" and exp_state in (1, 2, 4) and tr.fs is not None and not isnan(tr.fs) and 100.0 <= tr.fs <= 192000.0:
+            tt = {1: tr.att, 2: tr.dec, 4: tr.rel}[exp_state]
+            s_acc = exp_acc + adsr_inc_of(tr.fs, tt)
+            if s_acc >= 16777216:
+                exp_state, exp_acc = {1: 2, 2: 3, 4: 0}[exp_state], 0
+            else:
+                exp_acc = s_acc
         if op != "tick" and prev is not None and val != prev[2] and not (val == 0 and prev[2] == 0):
             fails.append((i, "`%s` changed the output from %r to %r" % (op, prev[2], val)))
             break
@@ -750,8 +772,10 @@ def mon_C01(script, outs):
             elif pst == 0:
                 if val != 0.0:
                     fails.append((i, "at rest the output is %r" % val))
-            # curve fidelity in a timed phase
+            # curve fidelity in a timed phase; position by the independent clock when it agrees on the phase
             x = acc / TWO24
+            if exp_state == st and tr.fs is not None and not isnan(tr.fs) and 100.0 <= tr.fs <= 192000.0:
+                x = exp_acc / TWO24
             ideal = None
             if st == 1:
                 ideal = tr.von + (1 - tr.von) * rc_attack(x)
